@@ -2,9 +2,10 @@
    Only statements, `exact` proofs and Print Assumptions live here.
    Models and proofs: theories/SetOps.v (set helpers, Max/Min, arithmetic shift), AShiftR.v (shift over the reals), Comb.v (Combinations),
    Vec.v / Quat.v (vectors, lines, matrices, rotation quaternion over the reals), VecF.v (binary64 models and the run-time law checkers). *)
-From Coq Require Import ZArith List Bool Permutation Reals QArith Qabs Sorting.Sorted.
+From Coq Require Import ZArith List Bool Permutation Reals QArith Qabs Sorting.Sorted Floats.
+From Flocq Require Import Core.
 From Flocq Require Raux.
-From SID Require Import Base SetOps AShiftR Comb Vec Quat VecF VecExact.
+From SID Require Import Base F64 SetOps AShiftR Comb Vec Quat VecF VecExact OrdMax PointLaws.
 Import ListNotations.
 
 (* ================= set helpers: for every element type with decidable equality and EVERY map iteration order ================= *)
@@ -269,6 +270,129 @@ Theorem C20_float_line_point_is_exact_on_integers : forall p q t mp mq mt, ibv K
   exists B, ibv B (fline_to_point p (fvec_from_points p q) t) (zadd mp (zscale mt (zsub mq mp))).
 Proof. exact fline_exact. Qed.
 Print Assumptions C20_float_line_point_is_exact_on_integers.
+
+(* ================= the smaller helpers: L1Norm, AlmostEqual / IsClose, UniqueAppend, MaxPoint / MinPoint, Max / Min at float64,
+   DegreeToRadian / RadianToDegree (models and proofs: theories/PointLaws.v, OrdMax.v) ================= *)
+Open Scope R_scope.
+(* L1Norm = |x|+|y|+|z| is a norm, and dominates the Euclidean norm *)
+Theorem C20_l1norm_is_a_norm : forall a b f,
+  0 <= vl1norm a /\ vl1norm (vadd a b) <= vl1norm a + vl1norm b /\ vl1norm (vscale f a) = Rabs f * vl1norm a /\
+  (vl1norm a = 0 <-> a = vzero) /\ vnorm a <= vl1norm a.
+Proof. exact vl1norm_laws. Qed.
+Print Assumptions C20_l1norm_is_a_norm.
+Theorem C20_float_l1norm_is_exact_on_integers : forall a ma, ibv K a ma ->
+  is_int (fl1norm a) (Z.abs (zx ma) + Z.abs (zy ma) + Z.abs (zz ma)).
+Proof. exact fl1norm_exact. Qed.
+Print Assumptions C20_float_l1norm_is_exact_on_integers.
+(* AlmostEqual over R: reflexive, symmetric; for tol >= 0 it is |x - y| <= tol, for tol < 0 it is equality *)
+Theorem C20_almost_equal_laws : forall x y tol,
+  almost_equalR x x tol /\ (almost_equalR x y tol -> almost_equalR y x tol) /\
+  (0 <= tol -> (almost_equalR x y tol <-> Rabs (x - y) <= tol)) /\ (tol < 0 -> (almost_equalR x y tol <-> x = y)).
+Proof. exact almost_equalR_laws. Qed.
+Print Assumptions C20_almost_equal_laws.
+Theorem C20_is_close_laws : forall p q eps,
+  is_closeR p p eps /\ (is_closeR p q eps -> is_closeR q p eps) /\
+  (0 <= eps -> (is_closeR p q eps <-> Rabs (vx p - vx q) <= eps /\ Rabs (vy p - vy q) <= eps /\ Rabs (vz p - vz q) <= eps)).
+Proof. exact is_closeR_laws. Qed.
+Print Assumptions C20_is_close_laws.
+(* AlmostEqual on binary64 (`fin` = finite, `rv` = real value, rounding to nearest even): what the code computes, exactly *)
+Theorem C20_float_almost_equal_value : forall x y tol, fin x -> fin y -> fin tol ->
+  Rabs (round radix2 (SpecFloat.fexp FloatOps.prec FloatOps.emax) ZnearestE (rv x - rv y)) < bpow radix2 FloatOps.emax ->
+  (almost_equal x y tol = true <->
+   rv x = rv y \/ Rabs (round radix2 (SpecFloat.fexp FloatOps.prec FloatOps.emax) ZnearestE (rv x - rv y)) <= rv tol).
+Proof. exact almost_equal_value. Qed.
+Print Assumptions C20_float_almost_equal_value.
+Theorem C20_float_almost_equal_accepts_every_pair_within_tolerance : forall x y tol, fin x -> fin y -> fin tol ->
+  Rabs (round radix2 (SpecFloat.fexp FloatOps.prec FloatOps.emax) ZnearestE (rv x - rv y)) < bpow radix2 FloatOps.emax ->
+  Rabs (rv x - rv y) <= rv tol -> almost_equal x y tol = true.
+Proof. exact almost_equal_complete. Qed.
+Print Assumptions C20_float_almost_equal_accepts_every_pair_within_tolerance.
+Theorem C20_float_almost_equal_is_reflexive : forall x tol, fin x -> almost_equal x x tol = true.
+Proof. exact almost_equal_refl. Qed.
+Print Assumptions C20_float_almost_equal_is_reflexive.
+Theorem C20_float_almost_equal_is_symmetric : forall x y tol, fin x -> fin y -> fin tol ->
+  Rabs (round radix2 (SpecFloat.fexp FloatOps.prec FloatOps.emax) ZnearestE (rv x - rv y)) < bpow radix2 FloatOps.emax ->
+  almost_equal x y tol = almost_equal y x tol.
+Proof. exact almost_equal_sym. Qed.
+Print Assumptions C20_float_almost_equal_is_symmetric.
+Theorem C20_float_is_close_is_reflexive : forall p eps, fin (fx p) -> fin (fy p) -> fin (fz p) -> fis_close p p eps = true.
+Proof. exact fis_close_refl. Qed.
+Print Assumptions C20_float_is_close_is_reflexive.
+(* UniqueAppend, for any closeness test: appended iff no member is close; old points keep their places; no duplicate is created;
+   a pairwise-separated list stays pairwise separated *)
+Theorem C20_unique_append_appends_iff_no_member_is_close : forall (A : Type) (close : A -> A -> bool) l p,
+  uappend close l p = l ++ [p] <-> forall x, In x l -> close x p = false.
+Proof. exact @uappend_appends_iff. Qed.
+Print Assumptions C20_unique_append_appends_iff_no_member_is_close.
+Theorem C20_unique_append_keeps_the_list_in_front : forall (A : Type) (close : A -> A -> bool) l p,
+  exists t, uappend close l p = l ++ t /\ (t = [] \/ t = [p]).
+Proof. exact @uappend_keeps_prefix. Qed.
+Print Assumptions C20_unique_append_keeps_the_list_in_front.
+Theorem C20_unique_append_creates_no_duplicate : forall (A : Type) (close : A -> A -> bool), (forall p, close p p = true) ->
+  forall l p, NoDup l -> NoDup (uappend close l p).
+Proof. exact @uappend_NoDup. Qed.
+Print Assumptions C20_unique_append_creates_no_duplicate.
+Theorem C20_unique_append_keeps_points_separated : forall (A : Type) (close : A -> A -> bool) l p,
+  separated close l -> separated close (uappend close l p).
+Proof. exact @uappend_separated. Qed.
+Print Assumptions C20_unique_append_keeps_points_separated.
+(* MaxPoint / MinPoint over R: a member with the extreme dot product; empty list rejected; idempotent; coordinate bounds *)
+Theorem C20_max_min_point_bound_all_points : forall l v m,
+  (max_pointR l v = Ok m -> In m l /\ forall q, In q l -> vdot q v <= vdot m v) /\
+  (min_pointR l v = Ok m -> In m l /\ forall q, In q l -> vdot m v <= vdot q v) /\
+  (max_pointR l v = Err <-> l = []) /\ (min_pointR l v = Err <-> l = []).
+Proof. exact max_min_pointR_laws. Qed.
+Print Assumptions C20_max_min_point_bound_all_points.
+Theorem C20_max_min_point_are_idempotent : forall l v m,
+  (max_pointR l v = Ok m -> max_pointR (m :: l) v = Ok m) /\ (min_pointR l v = Ok m -> min_pointR (m :: l) v = Ok m) /\
+  max_pointR [m] v = Ok m /\ min_pointR [m] v = Ok m.
+Proof. exact max_min_pointR_idempotent. Qed.
+Print Assumptions C20_max_min_point_are_idempotent.
+Theorem C20_max_min_point_along_an_axis_bound_the_coordinate : forall l m,
+  (max_pointR l (V 1 0 0) = Ok m -> In m l /\ forall q, In q l -> vx q <= vx m) /\
+  (min_pointR l (V 1 0 0) = Ok m -> In m l /\ forall q, In q l -> vx m <= vx q).
+Proof. exact max_min_pointR_axis. Qed.
+Print Assumptions C20_max_min_point_along_an_axis_bound_the_coordinate.
+(* the binary64 code itself (VecF.fmax_point, compared bit for bit): with finite dot products the result is a member whose computed
+   dot product bounds every computed dot product *)
+Theorem C20_float_max_min_point_bound_all_points : forall gt l v m, Forall (fun p => fin (fdot p v)) l -> fmax_point gt l v = Ok m ->
+  In m l /\ forall q, In q l -> if gt then rv (fdot q v) <= rv (fdot m v) else rv (fdot m v) <= rv (fdot q v).
+Proof. exact fmax_point_spec. Qed.
+Print Assumptions C20_float_max_min_point_bound_all_points.
+(* Max / Min at float64 (Number = int | int32 | int64 | float32 | float64; string is not admitted): on finite values a member bounding all;
+   the int64 theorems above are on Z; NaN has no order and is excluded *)
+Theorem C20_float_max_min_bound_all_elements : forall l m,
+  (Forall fin l -> maxF l = Ok m -> In m l /\ forall x, In x l -> rv x <= rv m) /\
+  (Forall fin l -> minF l = Ok m -> In m l /\ forall x, In x l -> rv m <= rv x) /\
+  (maxF l = Err <-> l = []) /\ (minF l = Err <-> l = []).
+Proof. exact maxF_minF_laws. Qed.
+Print Assumptions C20_float_max_min_bound_all_elements.
+(* DegreeToRadian / RadianToDegree: inverse over R; the two float64 constants are pi/180 and 180/pi to half an ulp and inverse to 2^-52;
+   the code computes one correctly rounded product with them *)
+Theorem C20_degree_radian_are_inverse : forall x, rad2degR (deg2radR x) = x /\ deg2radR (rad2degR x) = x /\ deg2radR 180 = PI.
+Proof. exact deg_rad_inverseR. Qed.
+Print Assumptions C20_degree_radian_are_inverse.
+Theorem C20_degree_radian_constants :
+  rv c_deg2rad = c_d2r_R /\ rv c_rad2deg = c_r2d_R /\
+  Rabs (c_d2r_R - PI / 180) <= / IZR (2 ^ 60) /\ Rabs (c_r2d_R - 180 / PI) <= / IZR (2 ^ 48) /\ Rabs (c_d2r_R * c_r2d_R - 1) <= / IZR (2 ^ 52).
+Proof. exact deg_rad_constants. Qed.
+Print Assumptions C20_degree_radian_constants.
+Theorem C20_float_degree_to_radian_value : forall d, fin d ->
+  Rabs (round radix2 (SpecFloat.fexp FloatOps.prec FloatOps.emax) ZnearestE (rv d * c_d2r_R)) < bpow radix2 FloatOps.emax ->
+  rv (deg2rad d) = round radix2 (SpecFloat.fexp FloatOps.prec FloatOps.emax) ZnearestE (rv d * c_d2r_R).
+Proof. exact deg2rad_value. Qed.
+Print Assumptions C20_float_degree_to_radian_value.
+Theorem C20_float_radian_to_degree_value : forall r, fin r ->
+  Rabs (round radix2 (SpecFloat.fexp FloatOps.prec FloatOps.emax) ZnearestE (rv r * c_r2d_R)) < bpow radix2 FloatOps.emax ->
+  rv (rad2deg r) = round radix2 (SpecFloat.fexp FloatOps.prec FloatOps.emax) ZnearestE (rv r * c_r2d_R).
+Proof. exact rad2deg_value. Qed.
+Print Assumptions C20_float_radian_to_degree_value.
+Close Scope R_scope.
+Open Scope Z_scope.
+(* outside the quantifier (k > n), for the record: the loop of Combinations(1, 2, f) never returns (f is called with [0,1], [0,2], ...) *)
+Theorem C20_combinations_with_k_above_n_never_returns : forall fuel j, 1 <= j -> run fuel 1 2 [0; j] = None.
+Proof. exact combinations_k_gt_n_never_returns. Qed.
+Print Assumptions C20_combinations_with_k_above_n_never_returns.
 
 (* ================= non-vacuity ================= *)
 Close Scope Q_scope.
